@@ -52,6 +52,9 @@ func (c14) Gen(rng *rand.Rand, tier string, k int) *Case {
 		c.Delay = []int{9, 1, -5, -11}[rng.Intn(4)] // zone offset in hours (field reused)
 		c.Workers = []int{0, 20, 16}[rng.Intn(3)]   // hour of day (field reused)
 	}
+	if S > 2 && rng.Intn(12) == 0 {
+		c.Pad = 1 + rng.Intn(S/2) // position (1-based) of a snapshot with a zero close (field reused)
+	}
 	return c
 }
 
@@ -125,6 +128,14 @@ func (c14) Run(c *Case, st *Stats) []Violation {
 		st.Faults["non-utc-snapshot-dates"]++
 	}
 	snaps := genSnapshots(n, c.Shape, c.DataSeed, start)
+	if c.Pad > 0 && c.Pad <= len(snaps) {
+		// a day whose reported close is 0 (no closing auction), early in the warm-up where nothing
+		// is traded yet: the row of that date must still show that close
+		z := *snaps[c.Pad-1]
+		z.Close = 0
+		snaps[c.Pad-1] = &z
+		st.Faults["snapshot-with-a-zero-close-in-the-warm-up"]++
+	}
 	cfgClass := "default"
 	if len(c.Cfg) > 0 {
 		cfgClass = fmt.Sprint(c.Cfg)
